@@ -12,7 +12,7 @@ use libtw2_net::Timestamp;
 use serde::{Deserialize, Serialize};
 use std::collections::BTreeMap;
 
-pub const NADDR: usize = 12;
+pub const NADDR: usize = 40;
 
 #[derive(Clone, Debug, Serialize, Deserialize)]
 pub struct MultiCfg {
@@ -316,7 +316,11 @@ impl Engine for MultiEngine {
         let dup = if !fault_free && c.chance(1, 2) { c.range(10, 150) } else { 0 };
         let reorder = if !fault_free && c.chance(1, 2) { c.range(50, 400) } else { 0 };
         // mostly a handful of peers; sometimes many (collections behave differently beyond small sizes)
-        let naddr = match c.below(8) { 0 => c.range(9, NADDR as u64), 1 => c.range(5, 8), _ => c.range(1, 4) } as u8;
+        let naddr = match c.below(8) { 0 => c.range(9, 16), 1 => c.range(5, 8), _ => c.range(1, 4) } as u8;
+        // a crowd: more live peers than any small fixed-size scratch list, brought online together so that
+        // their timers fall due in the same tick
+        let crowd = c.chance(1, 14);
+        let naddr = if crowd { c.range(17, NADDR as u64) as u8 } else { naddr };
         let n_target = match c.below(10) {
             0..=4 => c.range(30, 120),
             5..=8 => c.range(120, 400),
@@ -325,6 +329,36 @@ impl Engine for MultiEngine {
         let mut ops: Vec<MultiOp> = Vec::new();
         let mut tag = 0u32;
         let pk = |s: &mut Prng| if reorder > 0 && s.chance(reorder, 1000) { s.below(6) as i32 - 3 } else { 0 };
+        if crowd {
+            let by_net = !accepting || s.chance(1, 4);
+            for a in 0..naddr {
+                if by_net {
+                    // the endpoint connects out to every address
+                    ops.push(MultiOp::Connect { a });
+                    for _ in 0..2 {
+                        ops.push(MultiOp::Deliver { a, dir: 1, pick: 0 });
+                        ops.push(MultiOp::Deliver { a, dir: 0, pick: 0 });
+                    }
+                } else {
+                    ops.push(MultiOp::RConnect { a, token: s.chance(2, 3) });
+                    ops.push(MultiOp::Deliver { a, dir: 0, pick: 0 });
+                    ops.push(MultiOp::Accept { a });
+                    ops.push(MultiOp::Deliver { a, dir: 1, pick: 0 });
+                    ops.push(MultiOp::Deliver { a, dir: 0, pick: 0 });
+                    tag += 1;
+                    ops.push(MultiOp::RSend { a, vital: true, len: 8, tag });
+                    ops.push(MultiOp::RFlush { a });
+                    ops.push(MultiOp::Deliver { a, dir: 0, pick: 0 });
+                }
+                if s.chance(1, 3) {
+                    tag += 1;
+                    ops.push(MultiOp::Send { a, vital: s.chance(1, 2), len: 8, tag });
+                }
+            }
+            ops.push(MultiOp::Advance { usec: *s.pick(&[500_000u64, 600_000, 1_100_000, 5_000_000]) });
+            ops.push(MultiOp::Tick);
+        }
+        let n_target = ops.len() + n_target;
         while ops.len() < n_target {
             let a = s.below(naddr as u64) as u8;
             tag += 1;
@@ -369,7 +403,7 @@ impl Engine for MultiEngine {
                 }
                 16 => ops.push(MultiOp::RTick { a }),
                 17 => {
-                    ops.push(MultiOp::Garbage { a, kind: s.below(8) as u8, salt: s.next_u64() });
+                    ops.push(MultiOp::Garbage { a, kind: s.below(12) as u8, salt: s.next_u64() });
                     ops.push(MultiOp::Deliver { a, dir: 0, pick: -1 });
                 }
                 _ => {
@@ -399,6 +433,7 @@ impl Engine for MultiEngine {
             last_remote_out: Vec::new(),
             links: (0..NADDR).map(|_| [Vec::new(), Vec::new()]).collect(),
         };
+        let mut crowd_seen = false;
         for op in &case.ops {
             ctx.ops_executed += 1;
             match self.step(&mut w, ctx, op) {
@@ -429,7 +464,11 @@ impl Engine for MultiEngine {
             if let Some(v) = w.check_pids() {
                 return Some(v);
             }
-            let st = (w.shadows.len() as u64) << 16 | w.shadows.values().fold(0u64, |h, s| h * 5 + match s.conn.verif_state_name() { "Unconnected" => 0, "Connecting" => 1, "Pending" => 2, "Online" => 3, _ => 4 });
+            if w.shadows.len() >= 17 && !crowd_seen {
+                crowd_seen = true;
+                ctx.count("probe_seventeen_live_peers");
+            }
+            let st = (w.shadows.len() as u64) << 16 | w.shadows.values().fold(0u64, |h, s| h.wrapping_mul(5).wrapping_add(match s.conn.verif_state_name() { "Unconnected" => 0, "Connecting" => 1, "Pending" => 2, "Online" => 3, _ => 4 }));
             ctx.state(st);
             ctx.t(st);
         }
@@ -451,7 +490,7 @@ impl Engine for MultiEngine {
 
     fn info(&self) -> EngineInfo {
         EngineInfo {
-            rule: "one run = an interleaving of datagrams from up to 4 addresses (real remote Connections behind lossy links, plus garbage), application calls (connect/accept/reject/send/flush/disconnect/ignore/connless) and ticks on one real Net (accepting or not). After every call, events, datagrams (with destination address) and needs_tick() are compared with per-address shadow Connections driven by the projected sub-history (same clock, per-address randomness and send failures). Non-trivial = a link fault fired in flight AND at least one comparison was made; distinct = distinct trace hash.".into(),
+            rule: "one run = an interleaving of datagrams from 1 to 40 addresses (usually a handful; 1 run in 14 a crowd of 17-40 peers brought online together) (real remote Connections behind lossy links, plus garbage), application calls (connect/accept/reject/send/flush/disconnect/ignore/connless) and ticks on one real Net (accepting or not). After every call, events, datagrams (with destination address) and needs_tick() are compared with per-address shadow Connections driven by the projected sub-history (same clock, per-address randomness and send failures). Non-trivial = a link fault fired in flight AND at least one comparison was made; distinct = distinct trace hash.".into(),
             assumptions: vec![
                 "one live peer per address (the application does not connect twice to the same address)".into(),
                 "accept() is only called while the pending peer is still unconnected (Net asserts it); a retransmitted connect that reaches the pending peer first makes accept impossible — reported as a probe, outside the listed properties".into(),
@@ -459,7 +498,7 @@ impl Engine for MultiEngine {
             ],
             real: vec!["net::Net", "net::collections::PeerMap", "the Connections inside Net", "remote peers (net::connection::Connection)", "packet codec, Huffman"],
             stub: vec!["UDP socket (per-address simulated links)", "clock", "RNG"],
-            required_probes: vec!["probe_peer_accepted", "probe_event_ready", "probe_event_chunk", "probe_event_disconnect", "probe_two_live_peers", "probe_unknown_addr_ignored", "probe_tick_sent", "probe_remote_close_delivered", "probe_nine_live_peers"],
+            required_probes: vec!["probe_peer_accepted", "probe_event_ready", "probe_event_chunk", "probe_event_disconnect", "probe_two_live_peers", "probe_unknown_addr_ignored", "probe_tick_sent", "probe_remote_close_delivered", "probe_nine_live_peers", "probe_seventeen_live_peers", "probe_noncanonical_connect"],
             fault_kinds: vec!["fault_loss", "fault_duplication", "fault_reorder", "fault_send_failure", "fault_garbage"],
         }
     }
@@ -800,7 +839,25 @@ impl MultiEngine {
                 ctx.t(18);
                 let a = a as usize % NADDR;
                 let mut r = Prng::new(mix(seed, salt, 0x67617262));
-                let d: Vec<u8> = match kind % 8 {
+                let huff = |flags_ack: [u8; 3], body: &[u8]| -> Vec<u8> {
+                    let mut d = flags_ack.to_vec();
+                    d[0] |= 0x80;
+                    d.extend_from_slice(&libtw2_huffman::instances::TEEWORLDS.compress_into_vec(body));
+                    d
+                };
+                let d: Vec<u8> = match kind % 12 {
+                    // equivalent encodings a different client implementation may choose: compressed control packets,
+                    // a connect with other header bits (resend request, ack, chunk count) set
+                    8 => huff([0x10, 0, 0], &CONNECT_TOKEN[3..]),
+                    9 => huff([0x10, 0, 0], &CONNECT_PLAIN[3..]),
+                    10 => {
+                        let mut d = if r.chance(1, 2) { CONNECT_TOKEN.to_vec() } else { CONNECT_PLAIN.to_vec() };
+                        d[0] |= *r.pick(&[0x40u8, 0x03, 0x43, 0x01]);
+                        d[1] = r.below(256) as u8;
+                        d[2] = r.below(3) as u8;
+                        d
+                    }
+                    11 => huff([0x10 | *r.pick(&[0u8, 0x40, 0x03]), r.below(256) as u8, 0], &[*r.pick(&[0u8, 1, 2, 3, 4])]),
                     0 => r.bytes(r.clone().usize_below(40)),
                     1 => CONNECT_TOKEN.to_vec(),
                     2 => CONNECT_PLAIN.to_vec(),
@@ -921,6 +978,27 @@ impl MultiEngine {
                         }
                     };
                     let canonical = d == CONNECT_TOKEN || d == CONNECT_PLAIN;
+                    // reference: would an independent, fresh connection take this datagram as a connect request?
+                    let ref_accepts = {
+                        let mut out = Vec::new();
+                        let (mut draws, mut fail) = (0u32, 0u8);
+                        let mut scb = ShadowCb { now: w.cb.now, out: &mut out, addr: a8, draws: &mut draws, fail_left: &mut fail, seed: w.cb.seed };
+                        let mut c = libtw2_net::connection::Connection::new();
+                        let dd = d.clone();
+                        guard(move || {
+                            let mut buf: ArrayVec<[u8; 2048]> = ArrayVec::new();
+                            let mut warn: Vec<libtw2_net::connection::Warning> = Vec::new();
+                            {
+                                let (it, _) = c.feed(&mut scb, &mut warn, &dd, &mut buf);
+                                for _ in it {}
+                            }
+                            c.verif_state_name() == "Pending"
+                        })
+                        .unwrap_or(false)
+                    };
+                    if ref_accepts && !canonical {
+                        ctx.count("probe_noncanonical_connect");
+                    }
                     let mut created = None;
                     for (pid, e) in &evs {
                         match e {
@@ -934,7 +1012,7 @@ impl MultiEngine {
                             other => stop!(Some(v("event-for-unknown-address", &[], format!("datagram from unknown address {} produced {:?}", a, other)))),
                         }
                     }
-                    if canonical && w.cfg.accepting && created.is_none() {
+                    if (canonical || ref_accepts) && w.cfg.accepting && created.is_none() {
                         stop!(Some(v("connect-not-announced", &[], format!("a connect request from unknown address {} produced no Connect event on an accepting endpoint", a))));
                     }
                     if let Some(pid) = created {
@@ -947,6 +1025,7 @@ impl MultiEngine {
                         if w.shadows.len() >= 9 {
                             ctx.count("probe_nine_live_peers");
                         }
+
                     } else {
                         ctx.count("probe_unknown_addr_ignored");
                     }
